@@ -168,7 +168,7 @@ CLIENT_TB = ["real roughenough-client binary (built from /repo's working tree) r
              "the Lean reference responder (Spec.RT.respondWith with real Ed25519/SHA-512 transcriptions) produces honest and forged datagrams; forgeries are applied by the harness with its own lenient tag-value codec",
              TB_CRYPTO]
 PROPS["C01"] = {
-    "claimed": False, "module": "Rough.Props.C01", "need_bins": True,
+    "claimed": True, "module": "Rough.Props.C01", "need_bins": True,
     "theorems": ["Rough.Props.C01.C01_sound", "Rough.Props.C01.C01_no_replay"],
     "streams": [{"args": ["client-forged"], "shards_quick": 12, "shards_thorough": 16}],
     "ops": ["client"], "trivial": r"^$", "min_nontrivial": 100,
@@ -190,4 +190,32 @@ PROPS["C03"] = {
     "design_ref": "5/C03",
     "level_text": "Lean theorems: client requests are 1024 bytes and must-answer by the reference classification; the client model accepts the reference responder's reply for every batch size and position with outcome (midpoint, radius, verified = key supplied, index); printed time = unit conversion; tied to the code by process-level runs of the real client against the Lean responder and the real server",
     "technique": "Lean 4 proof (client model complete w.r.t. reference responder) + process-level differential",
+}
+
+PROPS["C14"] = {
+    "claimed": False, "module": "Rough.Props.C14",
+    "theorems": ["Rough.Props.C14.C14_round_trip", "Rough.Props.C14.C14_parse_layout", "Rough.Props.C14.C14_parse_injective",
+                 "Rough.Props.C14.C14_tamper", "Rough.Props.C14.C14_wrong_key", "Rough.Props.C14.C14_layout"],
+    "streams": [{"args": ["envelope"], "shards_quick": 8, "shards_thorough": 16}],
+    "ops": ["envenc", "envdec"], "trivial": r"^$", "min_nontrivial": 1000,
+    "rule": "EnvelopeEncryption::{encrypt_seed, decrypt_seed} with harness KmsProvider implementations: handle-table providers with wrapped-key lengths 16..64 and authenticated XOR-pad providers with lengths 32..1024 (7 lengths quick / 13 thorough), the repository's identity mock; plaintexts 32..64 bytes; a recording wrapper captures the raw data key so the blob is recomputed byte-for-byte with the Lean AES-256-GCM transcription; for every blob: every position +1 byte modification, single-bit flips (one per byte quick / all 8 thorough), every truncation length, extensions by 1..32 bytes; provider faults error / wrong key / 16- and 33-byte key on unwrap, error on wrap. L1 = round trip, modified or faulted => Err (never Ok, never panic), blob contains neither seed nor data key (non-identity providers), layout. all cases non-trivial",
+    "trusted_base": [TB_CRYPTO, "harness KMS providers are non-malleable (they reject any change to the wrapped key) as a real key-management service is"],
+    "assumptions": ["AES-GCM and the KMS provide confidentiality/integrity: 'leaks nothing' is covered as a layout theorem (the blob is a function of wrapped key, nonce, ciphertext only) plus a substring search, not as a cryptographic proof",
+                    "tamper detection is a reduction: success on a modified blob exhibits an AEAD opening of a different (key, nonce, ciphertext) or a provider that unwraps a different wrapped key"],
+    "design_ref": "5/C14",
+    "level_text": "Lean theorems parametric in AEAD and KMS: round trip for every seed >= 32 bytes and wrapped-key length < 2^16, blob layout and injectivity of parsing, tampering/wrong-key acceptance reduces to an AEAD forgery or provider malleability; model tied to src/kms/envelope.rs by byte-exact blob recomputation with Lean AES-256-GCM and exhaustive single-position modifications",
+    "technique": "Lean 4 proof (round trip, parse injectivity, reduction for tampering) + byte-exact differential with Lean AES-GCM",
+}
+PROPS["C16"] = {
+    "claimed": True, "module": "Rough.Props.C16",
+    "theorems": ["Rough.Props.C16.C16_effective_is_written", "Rough.Props.C16.C16_out_of_range_refused", "Rough.Props.C16.C16_effective_in_range",
+                 "Rough.Props.C16.C16_sources_agree", "Rough.Props.C16.C16_unknown_key_refused", "Rough.Props.C16.C16_missing_required", "Rough.Props.C16.C16_parse_show", "Rough.Props.C16.C16_sources_disagree_witness"],
+    "streams": [{"args": ["cfg"], "shards_quick": 8, "shards_thorough": 16}],
+    "ops": ["cfg"], "trivial": r"^cfg:base:", "min_nontrivial": 200,
+    "rule": "one probe process per case and source runs make_config + is_valid_config and prints every ServerConfig getter or `refused` (Err, false, or panic): each of port, batch_size, fault_percentage, num_workers, status_interval, health_check_port x 35 boundary values (-70000 .. 2^32+1 incl. 0, 1, 50/51, 64/65, 255/256/257, 300, 65535/65536, 70000, 83222) and non-integers, through the YAML file AND the documented environment variable; 60 (quick) / 400 (thorough) random in-range combinations incl. client_stats + persistence_directory; missing required keys; unknown keys; seeds of wrong length/alphabet and an all-digit seed; interface / kms_protection / client_stats variants. L1 = effective value equals written value when started, out-of-range / missing / unknown refused, both sources agree. non-trivial = any case that varies a setting",
+    "trusted_base": ["yaml-rust scalar typing and str::parse are represented by small functions of Model/Config.lean validated on the grid", "file-system facts for persistence_directory are a parameter of the model"],
+    "assumptions": ["status_interval is documented only within 1..=65535 (the environment loader reads a u16, the file loader a u64)", "available_parallelism() is passed to the model as the default num_workers"],
+    "design_ref": "5/C16",
+    "level_text": "Lean theorems over a model of both loaders and the validator: a started server's effective integer setting is the written one for every key/value/source, out-of-range documented keys are refused, effective settings always lie in the documented ranges, file and environment steps agree on decimal values, unknown keys and missing required settings are refused; tied to the code by a probe process per case on a boundary grid through both sources",
+    "technique": "Lean 4 proof (loader/validator model: effective = written or refused) + probe-process differential on a boundary grid",
 }
